@@ -31,6 +31,9 @@ pub assume_specification [i32::abs] (x: i32) -> (r: i32)
     requires x != i32::MIN
     ensures r == (if x < 0 { -x } else { x as int });
 
+pub assume_specification [i32::unsigned_abs] (x: i32) -> (r: u32)
+    ensures r == (if x < 0 { -(x as int) } else { x as int });
+
 // R7 targets
 pub fn vx_assert(c: bool)
     requires c
